@@ -3,7 +3,8 @@ From Coq Require Import ZArith NArith List Bool Lia Arith.
 From V.C12 Require Import Ty Unify Proofs Proofs2.
 Import ListNotations.
 
-(** what `unify` never looks at: input flags (their number stays) and bound-variable flags *)
+(** what `unify` does not always look at: input flags (their number stays; they are compared
+    exactly when both input types are non-copyable) and bound-variable flags *)
 Definition pr_flags (h : head) : head :=
   match h with
   | HBoundT i _ _ => HBoundT i false false
